@@ -194,7 +194,7 @@ class CSSMediaRule(cssrule.CSSRuleRules):
                 def atrule(expected, seq, token, tokenizer):
                     # TODO: get complete rule!
                     tokens = self._tokensupto2(tokenizer, token)
-                    atval = self._tokenvalue(token)
+                    atval = self._tokenvalue(token, normalize=True)
                     factories = {
                         '@page': cssutils.css.CSSPageRule,
                         '@media': CSSMediaRule,
